@@ -234,10 +234,8 @@ namespace ratio
                     type *t = static_cast<type *>(s);
                     if (t->is_primitive())
                         ctx->exprs.emplace(names[i].id, t->new_instance(ctx));
-                    else if (!t->get_instances().empty())
+                    else // (throws an inconsistency if the type has no instance - for an enum: no value, own or included)..
                         ctx->exprs.emplace(names[i].id, t->new_existential());
-                    else
-                        throw inconsistency_exception();
                 }
 
                 if (&scp == &scp.get_core()) // we create fields for root items..
